@@ -393,7 +393,7 @@ def run(ctx):
                     if isinstance(k, ast.Constant) and k.value is False:
                         keep = "False"
                     dd.append((fn, n, keep))
-    ctx.require(len(dd) >= 4, "fewer than 4 de-duplications by index found", rules=['C07.p', 'C03.g'])
+    ctx.require(len(dd) >= 2, "fewer than 2 de-duplications by index found", rules=['C07.p', 'C03.g'])
     tally = {}
     for _, _, k in dd:
         tally[k] = tally.get(k, 0) + 1
